@@ -44,3 +44,16 @@ func VerifVlogRewrite(db *DB, fid uint32) error {
 
 // VerifMaxVersion is DB.MaxVersion().
 func VerifMaxVersion(db *DB) uint64 { return db.MaxVersion() }
+
+// VerifHoldWriter parks the write path: it takes db.lock for reading, so the goroutine that
+// serves the write channel blocks in ensureRoomForWrite (db.lock.Lock) of the request it is
+// working on while later commits queue up behind it; they are then served by ONE
+// writeRequests call. The caller must not call anything that takes db.lock until it has
+// called release.
+func VerifHoldWriter(db *DB) (release func()) {
+	db.lock.RLock()
+	return db.lock.RUnlock
+}
+
+// VerifWriteChLen is len(db.writeCh): requests not yet picked up by doWrites.
+func VerifWriteChLen(db *DB) int { return len(db.writeCh) }
